@@ -416,6 +416,10 @@ def isSorted : List Rat → Bool
   | [_] => true
   | a :: b :: r => decide (a ≤ b) && isSorted (b :: r)
 def closestGuard (l : List Rat) : G := if isSorted l then pass else stop
+/-- with `idx` the position `std::upper_bound` returns (`idx ≤ size`): `sorted_list[idx-1]`, `sorted_list[idx]`
+    are read only when `0 < idx < size` -/
+def closestReads (l : List Rat) (idx : Nat) : List (Option Rat) :=
+  if idx = 0 ∨ idx = l.length then [] else [l[idx - 1]?, l[idx]?]
 
 /-- `Sub_List(v,i1,i2)` after fix 7658ded: never stops; the elements copied are
     `v[a], …, v[b]` with `a = max(i1,0)`, `b = min(i2, size-1)` -/
